@@ -49,6 +49,7 @@ type Case struct {
 	Outcomes [][]TxOutcome
 	EndedBy string // "", "empty_validator_set", "bad_validator_update", "panic"
 	Panic   *PanicError
+	inCommit bool
 }
 
 type PrimaryOpts struct {
